@@ -1,7 +1,8 @@
 #!/bin/bash
 # dev helper: run every check's quick (or given tier) command, collect exit codes
 TIER=${1:-quick}
-cd /verif
+cd "$(dirname "$0")"
+mkdir -p work
 for p in C01 C02 C03 C04 C05 C06 C07 C08 C09 C10 C11 C12 C13 C14 C15 C16 C17 C18 C19 C20; do
   s=$(date +%s)
   ./check $p --tier $TIER > work/run_$p.out 2> work/run_$p.err
